@@ -11,7 +11,7 @@ package slog
 // the operation began), with the receiver's child table as the only exception.
 
 //@ func newentry
-//@   props C10
+//@   props C10 C11
 //@   assigns everything
 //@   keeps Entry.*, dualWriter.*, map[string]*Entry, lvlCurrent
 //@   maypanic
@@ -26,7 +26,7 @@ package slog
 //@   ensures [C10.fresh] result != nil && fresh(result)
 //@   ensures [C10.tree] implies(old(forall(m, map[string]*Entry, forall(k, implies(has(m, k), m[k] != nil)))), forall(m, map[string]*Entry, forall(k, implies(has(m, k), m[k] != nil))))
 //@   ensures [C10.owner] implies(old(forall(i, 0, len(args), !typeis(args[i], Opt))), result.owner == parent)
-//@   ensures [C10.inherit] implies(parent != nil && old(forall(i, 0, len(args), !typeis(args[i], Opt))), result.level == old(parent.level) && result.useJSON == old(parent.useJSON) && result.useColor == old(parent.useColor))
+//@   ensures [C10.C11.inherit] implies(parent != nil && old(forall(i, 0, len(args), !typeis(args[i], Opt))), result.level == old(parent.level) && result.useJSON == old(parent.useJSON) && result.useColor == old(parent.useColor))
 //@   ensures [C10.detached] implies(parent == nil && old(forall(i, 0, len(args), !typeis(args[i], Opt))), result.level == old(lvlCurrent) && result.useColor && !result.useJSON)
 //@   ensures [C10.clean] implies(old(forall(i, 0, len(args), !typeis(args[i], Opt))), result.writer == nil && result.items == nil && result.extraFrames == 0 && len(result.contextKeys) == 0 && implies(old(len(args)) <= 1, len(result.attrs) == 0))
 //@   ensures [C10.name] implies(old(forall(i, 0, len(args), !typeis(args[i], Opt)) && len(args) > 0 && typeis(args[0], string) && len(dyn(args[0], string)) > 0), result.name == old(dyn(args[0], string)))
